@@ -28,8 +28,9 @@ def pre_pipe(shard, *v):
     k = shard["k"]
     if not c01.pre_pipe(shard, *v[:len(v) - k]):
         return False
+    lo, hi = shard.get("nmd_range", (0, 2))
     for m in v[len(v) - k:]:
-        if not (0 <= m <= 2):
+        if not (lo <= m <= hi):
             return False
     return True
 
@@ -74,7 +75,8 @@ def body_pipe(shard, *v):
     if shard.get("flush"):
         flushes = [pick_bool(f) for f in rest[:k]]
         rest = rest[k:]
-    nmds = [pick(m, 0, 2) for m in rest[:k]]
+    lo, hi = shard.get("nmd_range", (0, 2))
+    nmds = [pick(m, lo, hi) for m in rest[:k]]
     # Values only steer control flow here.  Where some node inspects them they range over
     # the small domain and are decided by solver forks; where no node inspects them
     # (value-independence is what C01 establishes with unbounded symbolic ints) they are
@@ -114,6 +116,10 @@ def obligations(tier):
         kk = kA if not small else (3 if q else 4)
         obls.append(_obl("A/%s/k=%d" % (n, kk), {"template": "chain", "units": [n], "small": small},
                          kk, B, flush=(n == "collect")))
+    # a key re-seen inside an open batch with another key in between needs n >= 3 and 4 elements
+    for n3 in ("punique3_last", "punique3_first"):
+        obls.append(_obl("A/%s/k=4/one-dict-each" % n3, {"template": "chain", "units": [n3], "small": True,
+                                                       "nmd_range": (1, 1)}, 4, B))
     for ch in (SP.chains(2, SP.CORE) if q else SP.chains(2)):
         small = SP.inspects(ch)
         kk = 3 if q else 4
